@@ -223,7 +223,7 @@ def check_symbols(run, lst, ob):
                         continue
                     nxt = t.bid
                     break
-                if t.t in "ID" and t.patch is None:
+                if t.t in "ID" and t.patch is None and not t.uncovered:
                     break
             if nxt in proxy_blocks:
                 return "on-proxy-of-following-deleted-block"
